@@ -141,6 +141,38 @@ M('c12-hashtbl-size-mismatch', 'C12', 'src/containers/qhashtbl.c',
   "    obj->data = dupdata;\n    obj->size = size;", "    obj->data = dupdata;\n    obj->size = size + 1;", 'R2', 'qhashtbl_put',
   'recorded size differs from the copied length')
 
+# ---- C16 -------------------------------------------------------------------------------------
+M('c16-url-space-literal', 'C16', 'src/utilities/qencode.c',
+  "        00 , 0 , 0 , 0 , 0 , 0 , 0 , 0 , 0 , 0 , 0 , 0 , 0 ,'-','.','/', // 20-2F",
+  "        ' ', 0 , 0 , 0 , 0 , 0 , 0 , 0 , 0 , 0 , 0 , 0 , 0 ,'-','.','/', // 20-2F", 'TB1', 'qurl_encode', 'space emitted literally')
+M('c16-url-amp-literal', 'C16', 'src/utilities/qencode.c',
+  "        00 , 0 , 0 , 0 , 0 , 0 , 0 , 0 , 0 , 0 , 0 , 0 , 0 ,'-','.','/', // 20-2F",
+  "        00 , 0 , 0 , 0 , 0 , 0 ,'&', 0 , 0 , 0 , 0 , 0 , 0 ,'-','.','/', // 20-2F", 'TB1', 'qurl_encode', '& emitted literally')
+M('c16-b64-alphabet-swap', 'C16', 'src/utilities/qencode.c',
+  "'w','x','y','z','0','1','2','3','4','5','6','7','8','9','+','/'", "'w','x','y','z','0','1','2','3','4','5','6','7','8','9','-','_'",
+  'TB2', 'qbase64_encode', 'URL-safe alphabet instead of the standard one')
+M('c16-b64-map-entry', 'C16', 'src/utilities/qencode.c',
+  "        52, 53, 54, 55, 56, 57, 58, 59, 60, 61, 64, 64, 64, 64, 64, 64,  // 30-3F",
+  "        52, 53, 54, 55, 56, 57, 58, 59, 61, 60, 64, 64, 64, 64, 64, 64,  // 30-3F", 'TB3', 'qbase64_decode', 'two reader entries swapped')
+M('c16-hex-upper-missing', 'C16', 'src/utilities/qencode.c',
+  "        0, 10, 11, 12, 13, 14, 15,  0,  0,  0,  0,  0,  0,  0,  0,  0, // 40-4F",
+  "        0,  0,  0,  0,  0,  0,  0,  0,  0,  0,  0,  0,  0,  0,  0,  0, // 40-4F", 'TB4', 'qhex_decode', 'upper-case hex digits not accepted')
+M('c16-hex-writer-upper', 'C16', 'src/utilities/qencode.c',
+  "'0','1','2','3','4','5','6','7','8','9','a','b','c','d','e','f'\n", "'0','1','2','3','4','5','6','7','8','9','A','B','C','D','E','F'\n",
+  'TB4', 'qhex_encode', 'upper-case hex output')
+M('c16-b64-pad-swapped', 'C16', 'src/utilities/qencode.c',
+  "(nIdxOfThree >= 2) ? B64CHARTBL[(szIn[2] & 0x3F)] : '='", "(nIdxOfThree >= 2) ? '=' : B64CHARTBL[(szIn[2] & 0x3F)]",
+  'TB5', 'qbase64_encode', 'padding on the wrong arm')
+M('c16-b64-alloc-short', 'C16', 'src/utilities/qencode.c',
+  "4 * ((size / 3) + ((size % 3 == 0) ? 0 : 1)) + 1", "4 * ((size / 3) + ((size % 3 == 0) ? 0 : 1))",
+  'TB5', 'qbase64_encode', 'no room for the terminator')
+M('c16-b64-signed-index', 'C16', 'src/utilities/qencode.c',
+  "B64MAPTBL[(unsigned char) (*pEncPt)]", "B64MAPTBL[(int) (*pEncPt)]", 'TB6', 'qbase64_decode', 'signed index')
+M('c16-url-plus-dropped', 'C16', 'src/utilities/qencode.c',
+  "            case '+': {\n                *pBinPt++ = ' ';\n                break;\n            }\n", "", 'TB7', 'qurl_decode', 'plus no longer decodes to space')
+M('c16-x2c-casefold', 'C16', 'src/internal/qinternal.c',
+  "(hex_low >= 'A' ? ((hex_low & 0xdf) - 'A') + 10", "(hex_low >= 'A' ? (hex_low - 'A') + 10", 'TB7', '_q_x2c', 'low nibble not case-folded')
+
 
 def run_selftest(prop, rep, rule_fn, config='cmake-release'):
     """Apply every mutant of `prop` to a scratch copy, run rule_fn(prog, report) on it, and
